@@ -53,7 +53,8 @@ Inductive form :=
 | FCtor (inobj : bool) (ps : list param) (rets : list ty) (err : bool)  (* rets = non-error return types; [] = initializer *)
 | FResult (inobj : bool) (ps : list param) (fs : list rfield) (err : bool).
 
-Inductive outcome := OOk | OErr | OPanic | ONil.
+Inductive outcome := OOk | OErr | OPanic | ONil
+| OCancelBuild.   (* the constructor cancels the context of the Build in progress and succeeds *)
 
 Record reg := mkReg {
   r_id : nat;
@@ -86,18 +87,21 @@ Inductive eclass :=
 | ENotFound | EScopeDisposed | EProviderDisposed | ECircular | ELifetime | EAlready
 | ECtorErr (rid : nat) | ECtorPanic (rid : nat) | ENilInst | EValidation | ETypeMismatch
 | EDisposal (n : nat) | ESingletonNotInit | EKeyNil | ETypeNil | EOther
+| ECancelled                     (* Build was cancelled through its context *)
 | EPanicked.                      (* the operation panicked: never produced by the model *)
 
 Inductive result :=
 | RUnit | RVal (a : aval) | RScope (h : nat) | RBool (b : bool) | RCount (n : nat)
 | RDescs (l : list (ty * key * grp * lifetime))
+| RStats (tracked : nat) (per_scope : list (nat * nat * nat))   (* tracked scopes; per handle: children, cached, disposables; 999 = table released *)
 | RErr (c : eclass) (mods : list nat).
 
 Definition OWNER_PROV : nat := 900.
 Inductive event :=
 | EvCtor (rid inv : nat) (args : list aval) (o : outcome)
 | EvClosed (i : inst) (ok : bool) (owner : nat)   (* owner: scope handle, OWNER_PROV for singletons *)
-| EvCycle (path : list ident).                   (* the path of a reported circular-dependency error (observed only) *)
+| EvCycle (path : list ident)
+| EvCancel.                                      (* a constructor cancelled the context of the Build in progress *)                   (* the path of a reported circular-dependency error (observed only) *)
 
 Inductive module :=
 | MNil
@@ -126,7 +130,8 @@ Inductive op :=
 | OCancel (c : nat) (ord : list nat)
 | OCtxValue (p h : nat)                         (* which explicit context does the scope's context derive from *)
 | OCtxDone (p h : nat)
-| OFromContext (p h : nat).
+| OFromContext (p h : nat)
+| OStats (p : nat).                             (* the provider's and scopes' bookkeeping (C14) *)
 
 Fixpoint nth_default {A} (d : A) (l : list A) (n : nat) : A :=
   match l, n with
